@@ -3,6 +3,8 @@
 package main
 
 import (
+	"github.com/edutko/decipher/internal/asn1struct"
+	"encoding/asn1"
 	"bytes"
 	"crypto/dsa"
 	"crypto/ecdsa"
@@ -204,6 +206,26 @@ func genC06(tier string, r *rng) {
 		}
 		emit("sshfile", sshFileArgs(kind, []byte(data), keyLines)...)
 	}
+	// very long entries (beyond the 64 KiB token limit of line scanners) in first, middle and last position
+	{
+		longOpt := "environment=\"X=" + strings.Repeat("a", 70000) + "\" "
+		var hosts []string
+		for h := 0; len(strings.Join(hosts, ",")) < 70000; h++ {
+			hosts = append(hosts, fmt.Sprintf("host%d.example.com", h))
+		}
+		longHosts := strings.Join(hosts, ",")
+		for pos := 0; pos < 3; pos++ {
+			al := []string{keys[0] + " first", keys[1] + " second", keys[2] + " third"}
+			al[pos] = longOpt + al[pos]
+			emit("sshfile", sshFileArgs("auth", []byte(strings.Join(al, "\n")+"\n"), al)...)
+			kl := []string{"a.example.com " + keys[0], "b.example.com " + keys[1], "c.example.com " + keys[2]}
+			kl[pos] = longHosts + " " + keys[pos]
+			emit("sshfile", sshFileArgs("known", []byte(strings.Join(kl, "\r\n")), kl)...)
+		}
+		// a comment line and a blank line of that length
+		cl := []string{keys[0] + " first", "# " + strings.Repeat("c", 70000), strings.Repeat(" ", 70000), keys[1] + " second"}
+		emit("sshfile", sshFileArgs("auth", []byte(strings.Join(cl, "\n")), []string{cl[0], cl[3]})...)
+	}
 	// a line that does not parse must fail the file (never be dropped silently)
 	emit("sshfile", sshFileArgs("auth", []byte(keys[0]+"\nnot a key line\n"+keys[1]+"\n"), []string{keys[0], "not a key line", keys[1]})...)
 	emit("sshfile", sshFileArgs("known", []byte("example.com "+keys[0]+"\ngarbage\n"), []string{"example.com " + keys[0], "garbage"})...)
@@ -224,6 +246,36 @@ func genC06(tier string, r *rng) {
 	blocks = append(blocks, pem.EncodeToMemory(&pem.Block{Type: "FOO BAR", Bytes: []byte("unknown label")}),
 		pem.EncodeToMemory(&pem.Block{Type: "CERTIFICATE", Bytes: []byte("not a certificate")}),
 		pem.EncodeToMemory(&pem.Block{Type: "certificate", Headers: map[string]string{"X-Note": "lower-case label"}, Bytes: []byte{0x30, 0x00}}))
+	// context-sensitive neighbours: an EC PARAMETERS block and EC private keys WITHOUT their optional parameters / public key
+	// (a block must be described as it is alone, whatever stands before it in the bundle)
+	{
+		bareEC := mustMarshal(asn1struct.ECPrivateKey{Version: 1, PrivateKey: []byte{1, 2, 3, 4}})
+		ecp := func(oid asn1.ObjectIdentifier) []byte {
+			return pem.EncodeToMemory(&pem.Block{Type: "EC PARAMETERS", Bytes: mustMarshal(oid)})
+		}
+		ctx := [][]byte{ecp(asn1.ObjectIdentifier{1, 3, 132, 0, 34}), ecp(asn1.ObjectIdentifier{1, 2, 840, 10045, 3, 1, 7}),
+			pem.EncodeToMemory(&pem.Block{Type: "EC PRIVATE KEY", Bytes: bareEC}),
+			pem.EncodeToMemory(&pem.Block{Type: "PRIVATE KEY", Bytes: []byte{0x30, 0x00}}),
+			pem.EncodeToMemory(&pem.Block{Type: "PUBLIC KEY", Bytes: []byte{0x30, 0x00}})}
+		blocks = append(blocks, ctx...)
+		emitBundle := func(bs ...[]byte) {
+			var data []byte
+			var recs []string
+			for _, b := range bs {
+				data = append(data, b...)
+				i2, err := file.PEMFile(file.Info{}, b)
+				recs = append(recs, infoRec(i2, err)...)
+			}
+			emit("pembundle", append([]string{hx(data), "N", fmt.Sprint(len(bs))}, recs...)...)
+		}
+		some := blocks[0]
+		for _, a := range ctx {
+			for _, b := range ctx {
+				emitBundle(a, b)
+				emitBundle(a, some, b)
+			}
+		}
+	}
 	pgpBlock := armorNoCRC("PGP PUBLIC KEY BLOCK", []byte("not packets"))
 	junks := []string{"", "\n", "Subject: CN=x\nIssuer: y\n", "text without dashes\n", "-- two dashes --\n", "-----\n", "----- BEGIN nothing\n", "trailing -----BEGI\n"}
 	nb := 120
